@@ -264,6 +264,11 @@ def main(run):
         reqs.append({"id": rid, "schema_path": sp, "query_text": t, "options": {"mode": "derive", "struct_name": "Anything"}, "want": ["inspect"]})
         meta[rid] = {"mode": "derive-empty", "text": t, "doc": {"operations": [], "fragments": []}, "op_order": [], "schema_path": sp, "schema_text": stext, "schema_ext": ext, "options": reqs[-1]["options"]}
     resps = run_gendrv_parallel(reqs)
+    # a document that no request at all gets through (the parser refuses the text) is not this property's business: whether a
+    # text is accepted is C02's. Decided by outcomes, not by the wording of the error
+    some_ok = {}
+    for req, resp in zip(reqs, resps):
+        some_ok[meta[req["id"]]["text"]] = some_ok.get(meta[req["id"]]["text"], False) or resp["outcome"] == "ok"
     for req, resp in zip(reqs, resps):
         m = meta[req["id"]]
         mode = m["mode"]
@@ -279,19 +284,19 @@ def main(run):
                 sym = "struct name %r matches no operation, yet code was generated for %s" % (m["options"].get("struct_name"), [v.get("OPERATION_NAME") for v in mods.values()])
             elif resp["outcome"] == "err" and mode != "derive-empty":
                 msg = resp.get("message") or ""
-                if "arser error" in msg:
-                    run.count("parser-rejected")
+                if not some_ok.get(m["text"]):
+                    run.count("document-rejected-as-a-whole")
                     continue
                 missing = [n for n in ops if n not in msg]
-                if missing or m["options"]["struct_name"] not in msg:
-                    sym = "the error does not name the struct and every available operation (missing %s): %s" % (missing, msg[:200])
+                if missing:
+                    sym = "the error does not name every available operation (missing %s): %s" % (missing, msg[:200])
             elif resp["outcome"] not in ("err", "panic"):
                 sym = "driver crash: %s" % (resp.get("message") or "")[:200]
         else:
             if resp["outcome"] != "ok":
                 msg = resp.get("message") or ""
-                if "arser error" in msg or "parse" in msg.lower():
-                    run.count("parser-rejected")
+                if not some_ok.get(m["text"]):
+                    run.count("document-rejected-as-a-whole")
                     continue
                 sym = "generation-%s in mode %s: %s" % (resp["outcome"], mode, msg[:200])
             else:
@@ -474,7 +479,7 @@ def compiled_part(run, compiled, work):
                 run.inconclusive_case(cid, "derive crate failed without attribution: %s" % (fac.unattributed[:1],))
             else:
                 msg = v.get("message") or ""
-                if "does not match any defined operation" not in msg or any(o not in msg for o in ops):
+                if any(o not in msg for o in ops):      # (the wording is free; naming every operation is what the statement asks for)
                     run.violation(c, "derive error does not list the available operations: %s" % msg[:300])
                 else:
                     run.held()
